@@ -47,16 +47,21 @@ CHECKS = {
  "C14": dict(level="fault_enumeration", design="5/C14", technique="TLA+ model of the refill loop (ZlibFill) with liveness (Terminates) checked by TLC for every raw-file shape; truncations and trailing bytes of real joblib files loaded under a watchdog; damaged cache entries recomputed",
              text="Every raw-file shape of the refill loop terminates in the model; on the real code every truncation (all lengths for small files in thorough) and 5 kinds of trailing bytes for 6 compressors incl. block-boundary-tuned files: load must terminate and raise or return the original; every truncation of a cached output.pkl must lead to recomputation.",
              note="Trusted base: TLC; watchdog 10 s and 3 GiB address-space limit define hang / runaway."),
+
+ "C20": dict(level="model_checking", design="5/C20", technique="TLA+ ResourceTracker spec model-checked by TLC (action properties DeletedOnlyWhenDue / DeletedWhenDue); TLC-generated request sequences sent to a real resource_tracker.main on a private pipe with a sentinel barrier; reference counts from the guarded hook trace compared with the model",
+             text="All sequences of <= 3 (thorough: 4) requests from 2 clients over files, a folder, a file inside it, nested folders, malformed lines and client exits, plus simulated sequences up to 10 requests: after every request the set of existing paths must equal the model's, the tracker must stay alive, and the final clean-up must delete exactly what is still registered.",
+             note="Trusted base: TLC; clients are write ends of the pipe held by the driver; the hook (JOBLIB_VERIF_TRACE) is only used for the count-level drift measure."),
 }
 NA_REASON = "check not built yet (construction in progress, see DESIGN.md section 8c build order)"
 M = {"version": 1, "setup_cmd": "make -C /verif",
      "hooks": {"guard": "JOBLIB_VERIF_TRACE", "enable": "export JOBLIB_VERIF_TRACE=<ndjson path> (unset = hooks are dead code)",
                "baseline_off_cmd": "cd /repo && env -u JOBLIB_VERIF_TRACE /venv/bin/python -m pytest -ra -q -p no:cacheprovider --timeout=900 --continue-on-collection-errors",
-               "source_commits": [], "add_only": True},
+               "source_commits": ["b04fb3b"], "add_only": True},
      "engines": [{"name": "tlc", "path": "engine/tlc.py", "serves_properties": sorted(CHECKS), "kind_free_text": "TLC 1.8 runner: model check, simulate, batched trace validation (specs/*.tla)"},
                  {"name": "parallel-drivers", "path": "harness/pl1.py", "serves_properties": ["C01", "C04", "C09", "C16"], "kind_free_text": "controlled backend + deterministic drivers of the real joblib.Parallel"},
                  {"name": "memory-programs", "path": "checks/memargs.py", "serves_properties": ["C02", "C06", "C12", "C18"], "kind_free_text": "generated programs / histories / stores replayed on real joblib.Memory"},
                  {"name": "persistence-workers", "path": "harness/persist_worker.py", "serves_properties": ["C03", "C13", "C14"], "kind_free_text": "round-trip / stream / damaged-file workers"},
+                 {"name": "tracker-driver", "path": "harness/tracker_worker.py", "serves_properties": ["C20"], "kind_free_text": "drives loky's resource tracker on a private pipe"},
                  {"name": "fs-interposer", "path": "harness/fsctl.py", "serves_properties": ["C05", "C11"], "kind_free_text": "LD_PRELOAD interposer + controller: crash injection, torn writes, turn-based scheduling of real processes"}],
      "checks": [], "notes": "see DESIGN.md; KNOWN_FINDINGS.jsonl lists repaired (fixed) and open findings",
      "not_applicable": []}
